@@ -5,6 +5,7 @@ Property theorems only; helper lemmas live in Proof/YamlEmit.lean.  `Rev.v1` is 
 tree (the marker is regenerated from the source on every run).
 -/
 import SuccinctlyVerif.Proof.YamlEmit
+import SuccinctlyVerif.Proof.YamlAnchor
 namespace SV.Props.C15
 open SV.Yaml SV.Yaml.Emit
 
@@ -224,5 +225,64 @@ example : loadScalar resolvePlainRs .blockValue (streamSmartQuoted .v0 ".5".toLi
     some (.float .finite) := by decide
 /-- `-I 0`: the DOM emitter's indentation step was empty. -/
 example : domIndentWidth .v0 0 = 0 := by decide
+
+/-! ## Anchors and aliases -/
+
+section Anchors
+open SV.Yaml.Anchor
+
+/-- `alias_sound` (DOM route: `enforce_anchor_soundness` then `emit_yaml_value`): for every value
+tree and anchor table in which no anchor mark lies below an alias-marked node, and for every notion
+of value equality, every alias that is printed refers to an anchor printed earlier in the same
+document — the most recent one of that name — whose value equals the alias's value.
+The side condition is necessary for the pass as a function over arbitrary tables (see
+`alias_sound_needs_opaque`); tables built by `to_owned_with_comments` do carry marks below alias
+nodes (they mirror the target's), and there soundness rests on that mirror invariant, which this
+model does not contain — the end-to-end loop (`ALIAS-FAIL`) covers it. -/
+theorem alias_sound (eqv : Forest → Forest → Bool) (f : Forest) (h : aliasOpaque f = true) :
+    sound eqv (emit (enforce eqv f)) = true := by
+  have := soundFrom_scan eqv f [] [] h
+  simpa [sound, enforce, soundFrom] using this
+
+/-- Non-vacuity: `a: &0 1`, `b: *0` (equal value) keeps the alias; `c: *0` with another value and
+`d: *7` (never declared) lose theirs. -/
+example :
+    let f := Forest.cons 0 (.declares 0) 1 .nil (.cons 1 (.aliases 0) 1 .nil
+      (.cons 2 (.aliases 0) 2 .nil (.cons 3 (.aliases 7) 1 .nil .nil)))
+    aliasOpaque f = true ∧
+    emit (enforce (fun a b => a == b) f) =
+      [.decl 0 (nodeVal 0 1 .nil), .alias 0 (nodeVal 0 1 .nil)] := by decide
+
+/-- The pass alone is NOT sound on arbitrary anchor tables: `a: &0 {k: 1}`, `b: *0` whose table
+entry carries `k: &1` below the alias, `c: *1`.  The scan records `&1` while walking below `b`,
+keeps `c: *1`, and the writer prints `b` as `*0` — so `&1` is never printed. -/
+theorem alias_sound_needs_opaque :
+    let f := Forest.cons 0 (.declares 0) 9 (.cons 5 .none 1 .nil .nil)
+      (.cons 1 (.aliases 0) 9 (.cons 5 (.declares 1) 1 .nil .nil)
+      (.cons 2 (.aliases 1) 1 .nil .nil))
+    aliasOpaque f = false ∧ sound (fun a b => a == b) (emit (enforce (fun a b => a == b) f)) = false := by
+  decide
+
+/-- K2 (streaming route, identity/navigation — no soundness pass, `YamlIndex` keeps one position per
+anchor name): `a: &0 1`, `b: *0`, `c: &0 2`, `d: *0` prints `a: 1`, `b: *0`, `c: &0 2`, `d: *0`.
+This refutes the streaming analogue of `alias_sound`; the DOM route prints the same document
+soundly. -/
+theorem stream_alias_unsound_redeclared :
+    let f := Forest.cons 0 (.declares 0) 1 .nil (.cons 1 (.aliases 0) 1 .nil
+      (.cons 2 (.declares 0) 2 .nil (.cons 3 (.aliases 0) 2 .nil .nil)))
+    sound (fun a b => a == b) (streamEmit f []) = false ∧
+    sound (fun a b => a == b) (emit (enforce (fun a b => a == b) f)) = true := by
+  decide
+
+/-- K3 (streaming route, navigation, upstream #1350): the result of `.a` on
+`k: &0 1`, `a: [*0]` is the subtree `[*0]`; the streaming writer prints the alias without its
+anchor, the DOM route (which would run the pass on the result) drops the mark. -/
+theorem stream_alias_unsound_navigation :
+    let sub := Forest.cons 1 .none 9 (.cons 0 (.aliases 0) 1 .nil .nil) .nil
+    sound (fun a b => a == b) (streamEmit sub []) = false ∧
+    sound (fun a b => a == b) (emit (enforce (fun a b => a == b) sub)) = true := by
+  decide
+
+end Anchors
 
 end SV.Props.C15
